@@ -4,6 +4,7 @@
     Tree/ChoiceInvProofs.v. *)
 From Coq Require Import ZArith List Bool Strings.Byte.
 From YV Require Import Val.Model Tree.Schema Tree.Editor Tree.Merge Tree.EditorProofs Tree.ChoiceInv Tree.ChoiceProofs Tree.ChoiceInvProofs.
+From YV Require Import Tree.ReflectChoose Tree.ReflectChooseProofs.
 From YV Require Import Base.Verdict.
 From YV Require Check.C09Check.
 Import ListNotations.
@@ -174,3 +175,99 @@ Example C09_zero_valued_case_is_cleared :
   C09Check.classify_node kids [f; None] [None; None] (C09Check.NObsOk [f; None] [None; None]) = Violates.
 Proof. vm_compute. repeat split. Qed.
 Print Assumptions C09_zero_valued_case_is_cleared.
+
+(** * The Reflect map node (nodeutil.ReflectChild over Go maps; Check/C09Check.v, case CRefl)
+
+    Its case detection (nodeutil/reflect.go childMap OnChoose, after fix f226b24) walks the HIERARCHY
+    of the schema: cases in name order, the definitions of a case in schema order, a choice nested
+    in a case looked through recursively (Tree/ReflectChoose.v, [rchoose]).  The theorems below are
+    over hierarchies of any nesting depth and any held data. *)
+
+(** the answer is a case of the choice asked about, something is held under it - at any depth of
+    nesting - and nothing is held under a case before it *)
+Theorem C09_reflect_choose_answer : forall cases k,
+  rchoose cases = Some k ->
+  (k < length cases)%nat /\
+  any_present (hflat_defs (nth k cases [])) = true /\
+  forall i, (i < k)%nat -> any_present (hflat_defs (nth i cases [])) = false.
+Proof. exact rchoose_some. Qed.
+Print Assumptions C09_reflect_choose_answer.
+
+(** no answer only when nothing is held below the choice, and then always *)
+Theorem C09_reflect_choose_no_answer : forall cases,
+  rchoose cases = None -> any_present (hflat_cases cases) = false.
+Proof. exact rchoose_none. Qed.
+Print Assumptions C09_reflect_choose_no_answer.
+
+Theorem C09_reflect_choose_complete : forall cases,
+  any_present (hflat_cases cases) = true -> exists k, rchoose cases = Some k.
+Proof. exact rchoose_complete. Qed.
+Print Assumptions C09_reflect_choose_complete.
+
+(** the walk over the hierarchy is [Schema.choose] of the flat kids, for every choice of a
+    container at any depth of nesting: the Reflect map node detects cases as the reference store
+    does, hence [edit_content] (whose clearing and reading go through [choose]) is the model of an
+    upsert into it and [C09_history] is a statement about it.  [dump_ok]: the dumped hierarchy walks
+    the flat kids in order and its paths are their guards (evaluated on every case of the run). *)
+Theorem C09_reflect_choose_is_reference_choose : forall defs kids data id cases,
+  dump_ok defs kids = true -> length data = length kids ->
+  find_choice_defs id (hzip_defs kids data defs) = Some cases ->
+  rchoose cases = choose id kids data.
+Proof. exact reflect_choose_flat. Qed.
+Print Assumptions C09_reflect_choose_is_reference_choose.
+
+(** on a target holding at most one case per choice - which every upsert history preserves - the
+    answer is THE case holding data, however deep below nested choices the held node sits *)
+Theorem C09_reflect_choose_selected_case : forall defs kids data id cases k,
+  dump_ok defs kids = true -> length data = length kids ->
+  find_choice_defs id (hzip_defs kids data defs) = Some cases ->
+  one_case_here kids data = true -> In (id, k) (occupied kids data) ->
+  rchoose cases = Some k.
+Proof. exact reflect_choose_selected. Qed.
+Print Assumptions C09_reflect_choose_selected_case.
+
+(** non-vacuity and the two detections that are NOT the model: module
+      choice o { case a { choice i { case x { leaf p } case y { leaf q } } leaf g } case b { leaf r } }
+    with only [p] held.  The repaired walk answers case a (index 0) for [o], as [choose] does; the
+    detection of the pinned commit looked the nested choice up under its own name and answered
+    nothing (so a read dropped [p] and an upsert of [r] left [p] in place); a walk that hands back
+    what its recursive call found answers, for [o], with case x of choice [i]. *)
+Example C09_reflect_choose_hyps_met_old_refuted :
+  let leaf n g := SLeaf (mkMeta [n] [] true g None) TStr false None in
+  let kids := [leaf x70 [(0, 0); (1, 0)]; leaf x71 [(0, 0); (1, 1)]; leaf x67 [(0, 0)]; leaf x72 [(0, 1)]]%nat in
+  let defs := [CC 0 [[CC 1 [[CD 0]; [CD 1]]; CD 2]; [CD 3]]]%nat in
+  let v := Some (DLeaf (LV (VStr [x31]))) in
+  let data := [v; None; None; None] in
+  dump_ok defs kids = true /\ length data = length kids /\ one_case_here kids data = true /\
+  In (0, 0)%nat (occupied kids data) /\
+  exists cases, find_choice_defs 0 (hzip_defs kids data defs) = Some cases /\
+                rchoose cases = Some 0%nat /\ choose 0 kids data = Some 0%nat /\
+                rchoose_old cases = None /\
+                rchoose_inner 0 cases = Some (1, 0)%nat.
+Proof. vm_compute. repeat split; try (left; reflexivity). eexists. repeat split. Qed.
+Print Assumptions C09_reflect_choose_hyps_met_old_refuted.
+
+(** the classification of a step on the Reflect map node: the target of the example above receives
+    [r] of case b.  Agree: [p] cleared, [r] held, read and answers accordingly.  An answer that is no
+    case of the choice asked about, an answer "none" while [p] is held, a target left with both
+    cases: each violates. *)
+Example C09_reflect_step_classified :
+  let leaf n g := SLeaf (mkMeta [n] [] true g None) TStr false None in
+  let kids := [leaf x70 [(0, 0); (1, 0)]; leaf x71 [(0, 0); (1, 1)]; leaf x67 [(0, 0)]; leaf x72 [(0, 1)]]%nat in
+  let defs := [CC 0 [[CC 1 [[CD 0]; [CD 1]]; CD 2]; [CD 3]]]%nat in
+  let v := Some (DLeaf (LV (VStr [x31]))) in
+  let src := [None; None; None; v] in
+  let tgt := [v; None; None; None] in
+  let A := C09Check.ACase in
+  C09Check.classify_refl defs kids src tgt
+    (C09Check.RObsOk [None; None; None; v] [None; None; None; v] [(0, A 1); (1, C09Check.ANone)]%nat) = Agree /\
+  C09Check.classify_refl defs kids src tgt
+    (C09Check.RObsOk [v; None; None; v] [None; None; None; v] [(0, A 1); (1, A 0)]%nat) = Violates /\
+  C09Check.classify_refl defs kids [None; None; v; None] tgt
+    (C09Check.RObsOk [v; None; v; None] [v; None; v; None] [(0, C09Check.AForeign); (1, A 0)]%nat) = Violates /\
+  C09Check.classify_refl defs kids [None; None; None; None] tgt
+    (C09Check.RObsOk [v; None; None; None] [None; None; None; None] [(0, C09Check.ANone); (1, A 0)]%nat) = Violates /\
+  C09Check.classify_refl defs kids [None; None; v; None] tgt
+    (C09Check.RObsOk [v; None; v; None] [v; None; v; None] [(0, A 0); (1, A 0)]%nat) = Agree.
+Proof. vm_compute. repeat split. Qed.
+Print Assumptions C09_reflect_step_classified.
